@@ -86,6 +86,8 @@ def vmx_spec(draw):
     unrelated = [["displayName", "my vm"], [".encoding", "UTF-8"], ["ethernet0.present", "TRUE"], ["ethernet0.fileName", "none.vmdk"],
                  ["floppy0.fileName", "boot.flp"], ["usb.present", "TRUE"], ["sched.scsi0:0.shares", "normal"], ["memsize", "2048"],
                  ["guestOS", "other"], ["serial0.fileName", "serial.out"], ["nvram", "vm.nvram"], ["config.version", "8"],
+                 # entries whose names merely begin with the letters of a device class: not devices (a device is <class><bus>:<unit>.<property>)
+                 ["ideal", "x"], ["idea.fileName", "plan.vmdk"], ["satabogus3:1.fileName", "ghost.vmdk"], ["nvmexpress.fileName", "n.vmdk"], ["scsibus", "1"],
                  ["annotation", "a = b # c"], ["annotation", "note\u2028sata0:3.fileName = ghost.vmdk"], ["extendedConfigFile", "vm.vmxf"], ["sound.fileName", "-1"]]
     for kv in draw(st.lists(st.sampled_from(unrelated), max_size=6, unique_by=lambda x: x[0])):
         lines.append(["kv", kv[0], kv[1]])
@@ -115,15 +117,17 @@ def vmx_spec(draw):
     return {"kind": "vmx", "lines": final, "style": style, "encrypted": draw(st.sampled_from([None, None, None, None, "direct", "retry"]))}
 
 
+import re as _re
+
+_DEVICE_KEY = _re.compile(r"^(scsi|sata|ide|nvme)(\d+(?::\d+)?)\.(.+)$", _re.S)
+
+
 def vmx_expected_disks(attr: dict) -> list[str]:
     devs = {}
     for k, v in attr.items():
-        for cls in UNITS:
-            if k.startswith(cls) and "." in k:
-                dev, prop = k.split(".", 1)
-                ident = dev[len(cls):]
-                devs.setdefault((cls, ident), {})[prop] = v
-                break
+        m = _DEVICE_KEY.match(k)
+        if m:  # <class><bus>[:<unit>].<property>; anything else is an unrelated entry, whatever letters it starts with
+            devs.setdefault((m.group(1), m.group(2)), {})[m.group(3)] = v
     res = []
     for props in devs.values():
         fn = props.get("filename")
@@ -143,7 +147,7 @@ def ovf_spec(draw):
     fids = draw(st.lists(st.sampled_from(IDS), min_size=1, max_size=5, unique=True))
     files = [[f, draw(st.sampled_from(FILE_NAMES + ["cd.iso", "disk1.vmdk", "disk2.vmdk"]))] for f in fids]
     dids = draw(st.lists(st.sampled_from(IDS), max_size=4, unique=True))
-    disks = [[d, draw(st.sampled_from(fids))] for d in dids]
+    disks = [[d, draw(st.sampled_from(fids)) if draw(st.integers(0, 7)) else None] for d in dids]  # one in eight: an empty disk (no fileRef)
     items = []
     for _ in range(draw(st.integers(0, 8))):
         rt = draw(st.sampled_from([17, 17, 17, 3, 4, 5, 6, 10, 14, 15, 16, 20, 23, 35]))
@@ -152,7 +156,7 @@ def ovf_spec(draw):
             if dids:
                 forms += [f"ovf:/disk/{draw(st.sampled_from(dids))}", f"/disk/{draw(st.sampled_from(dids))}"]
             forms += [f"ovf:/file/{draw(st.sampled_from(fids))}", f"/file/{draw(st.sampled_from(fids))}"]
-            host = draw(st.sampled_from(forms))
+            host = draw(st.sampled_from(forms)) if draw(st.integers(0, 9)) else None  # one in ten: a disk drive without medium
         elif rt in (14, 15, 16):
             host = draw(st.sampled_from([None, f"ovf:/file/{draw(st.sampled_from(fids))}", f"/disk/{draw(st.sampled_from(dids))}" if dids else None]))
         else:
